@@ -163,3 +163,17 @@ prop("C11",
      not_decided=["document-order traversal / balance over whole trees", "etree and dom getNodeDetails", "Lint acceptance",
                   "rebuilding the tree from the stream", "equality of the etree and dom streams"],
      explanation="walker components under contract")
+
+
+prop("C19",
+     level="proof",
+     level_text="Proof of to_sax for an arbitrary handler history and an arbitrary token: exactly one startDocument/endDocument "
+                "pair around the three prefix mappings, each started and ended once; per token: StartTag -> startElementNS with "
+                "the token's own attribute map and the standard qualified-name table, EmptyTag -> start + end, EndTag -> "
+                "endElementNS, text -> characters, doctype/comments omitted; plus the walker's entering/leaving guards (shared "
+                "with C11) which make the start/end events pair up; ground: the qname table inverts adjustForeignAttributes.",
+     level_note="Trusted: pyvc, z3; AttributesNSImpl as a record of (attrs, qnames). Proper nesting of the events follows from the "
+                "balance of the walker stream (C11: traversal order not mechanised). Entity / SerializeError tokens are excluded "
+                "by precondition (they do not occur for parsed trees: needs C01).",
+     not_decided=["nesting over whole streams (needs C11's traversal part)", "rebuilt tree equals source tree"],
+     explanation="adapter step contract + tables")
